@@ -6,7 +6,7 @@
 From Coq Require Import ZArith List Bool.
 From LV Require Import Enc.EncBase Enc.Subrect Enc.SubrectProofs Enc.Raw Enc.RRE Enc.Hextile Enc.Zlib Enc.ZRLE
      Enc.Update Enc.RawRREProofs Enc.HextileProofs Enc.SplitProofs Enc.StreamProofs
-     Enc.ZRLEProofs1 Enc.ZRLEProofs4 Enc.UpdateProofs Enc.Tight Enc.TightProofs
+     Enc.ZRLEProofs1 Enc.ZRLEProofs4 Enc.ZRLEFormatProofs Enc.UpdateProofs Enc.Tight Enc.TightProofs Enc.TightSplit Enc.TightSplitProofs Enc.Session Enc.SessionProofs
      Dec.SpecPaint Dec.SpecRaw Dec.SpecRRE Dec.SpecHextile Dec.SpecZRLE Dec.SpecTight Dec.SpecUpdate Gen.Consts_C01.
 Import ListNotations.
 
@@ -109,6 +109,24 @@ Theorem C01_zrle_cmode_depth_refuted :
   zrle_cmode 32 1 7 15 31 17 20 24 = 1 /\ spec_cmode 32 29 1 1 7 15 31 17 20 24 = 0.
 Proof. exact zrle_cmode_depth_refuted. Qed.
 
+(* strongest form: repaired encoder (fixes of F1, F2: b15 = false, unsigned arithmetic), every
+   well-formed 32-bpp true-colour format; the ONLY condition that is not well-formedness is the one
+   of finding F3, depth <= 24.  (8/16 bpp: CPIXEL = PIXEL, C01_zrle_partial with cmode 0.) *)
+Theorem C01_zrle_cmode_repaired_is_spec : forall bpp depth be tc rmax gmax bmax rs gs bs,
+  fmt_wf bpp rmax gmax bmax rs gs bs -> tc <> 0%Z -> (depth <= 24)%Z ->
+  zrle_cmode_gen false bpp be rmax gmax bmax rs gs bs = spec_cmode bpp depth be tc rmax gmax bmax rs gs bs.
+Proof. exact zrle_cmode_repaired_is_spec. Qed.
+
+Theorem C01_zrle_repaired : forall depth be tc rmax gmax bmax rs gs bs w h (vals : list (list Z)) payload canvas0,
+  fmt_wf 32 rmax gmax bmax rs gs bs -> tc <> 0%Z -> (depth <= 24)%Z ->
+  wf_grid w h vals ->
+  Forall (Forall (fun v => (0 <= v)%Z /\ Z.land v (maxpix rmax gmax bmax rs gs bs) = v)) vals ->
+  wf_grid w h canvas0 ->
+  let g := map (map (grid_of_value 32 be)) vals in
+  zrle_payload 4 (zrle_cmode_gen false 32 be rmax gmax bmax rs gs bs) false w h g = Some payload ->
+  dec_zrle_on canvas0 4 (spec_cmode 32 depth be tc rmax gmax bmax rs gs bs) w h payload = Some g.
+Proof. exact zrle_repaired_roundtrip. Qed.
+
 Example C01_zrle_nonvacuous :
   zrle_tile 1 0 false 4 2 [[5; 5; 5; 5]; [5; 7; 7; 5]]%Z = Some [2; 5; 7; 0; 96]%Z.
 Proof. vm_compute. reflexivity. Qed.
@@ -118,12 +136,22 @@ Proof. vm_compute. reflexivity. Qed.
    violates it (C01_tight_level0_refuted, finding F5); stated for tightConf[1], which every other
    level maps to when JPEG is off.  tpix_rt: the TPIXEL form is faithful on the pixel. *)
 Theorem C01_tight_basic_partial : forall p w h g payload,
-  1 <= w -> 1 <= h -> wf_grid w h g -> Forall (Forall (tpix_rt p)) g -> tp_conf p = 1%Z ->
-  tight_subrect p w h g = Some payload -> dec_tight (tp_fmt p) w h payload = Some g.
+  1 <= w -> 1 <= h -> wf_grid w h g -> Forall (Forall (tpix_rt p)) g -> conf_ok (tp_conf p) ->
+  tight_subrect p w h g = Some (TPayload payload) -> dec_tight (tp_fmt p) w h payload = Some g.
 Proof. exact tight_subrect_roundtrip. Qed.
 
+(* the hypothesis on the configuration, as a finite conjunction over the regenerated tightConf
+   table: rows 1, 2 and 3 qualify (row 0 is finding F5), and the level clamping of
+   SendRectEncodingTight always lands on one of them unless level 0 is asked without JPEG *)
+Theorem C01_tight_conf_rows : conf_ok 1 /\ conf_ok 2 /\ conf_ok 3.
+Proof. exact conf_ok_rows. Qed.
+
+Theorem C01_tight_conf_reached : forall jpeg level, (0 <= level)%Z -> (jpeg = true \/ (1 <= level)%Z) ->
+  conf_ok (tight_conf_index jpeg level).
+Proof. exact tight_conf_index_ok. Qed.
+
 Theorem C01_tight_rect_partial : forall W H scr p x y w h rects,
-  wf_grid W H scr -> Forall (Forall (tpix_rt p)) scr -> tp_conf p = 1%Z ->
+  wf_grid W H scr -> Forall (Forall (tpix_rt p)) scr -> conf_ok (tp_conf p) ->
   x + w <= W -> y + h <= H -> 1 <= w -> 1 <= h ->
   send_tight p x y w h scr = Ok rects ->
   Forall (tight_rect_ok p scr) rects /\
@@ -137,21 +165,35 @@ Theorem C01_tight_tpixel_plain : forall p pix,
   tp_pack24 p = false -> pix_ok (tp_bypp p) pix -> tpix_rt p pix.
 Proof. exact tpix_rt_plain. Qed.
 
-Theorem C01_tight_tpixel_888 : forall p r g b, tp_pack24 p = true -> tp_be p = false ->
-  (tp_rs p, tp_gs p, tp_bs p) = (0, 8, 16)%Z \/ (tp_rs p, tp_gs p, tp_bs p) = (16, 8, 0)%Z ->
+(* every 8-8-8 format of depth 24: the three bytes in any order, either endianness *)
+Theorem C01_tight_tpixel_888 : forall p r g b, tp_pack24 p = true ->
+  (tp_rs p = 0 \/ tp_rs p = 8 \/ tp_rs p = 16)%Z -> (tp_gs p = 0 \/ tp_gs p = 8 \/ tp_gs p = 16)%Z ->
+  (tp_bs p = 0 \/ tp_bs p = 8 \/ tp_bs p = 16)%Z ->
+  tp_rs p <> tp_gs p -> tp_rs p <> tp_bs p -> tp_gs p <> tp_bs p ->
   (0 <= r < 256)%Z -> (0 <= g < 256)%Z -> (0 <= b < 256)%Z ->
-  tpix_rt p (r * 2 ^ tp_rs p + g * 2 ^ tp_gs p + b * 2 ^ tp_bs p)%Z.
-Proof. exact tpix_rt_888_le. Qed.
+  tpix_rt p (grid_pixel_of_value (tp_be p) 4 (r * 2 ^ tp_rs p + g * 2 ^ tp_gs p + b * 2 ^ tp_bs p)%Z).
+Proof. exact tpix_rt_888. Qed.
 
 Theorem C01_tight_level0_refuted :
-  exists g payload, tight_subrect (mkTP 1 false false 0 0 0 0) 1 2 g = Some payload /\
+  exists g payload, tight_subrect (mkTP 1 false false 0 0 0 0 false false) 1 2 g = Some (TPayload payload) /\
     dec_tight (mkTF 1 false false 0 0 0) 1 2 payload = None.
 Proof. exact tight_level0_refuted. Qed.
 
 Example C01_tight_nonvacuous :
-  tight_subrect (mkTP 1 false false 0 0 0 1) 8 4 [[5; 5; 7; 5; 5; 5; 5; 5]; [5; 5; 5; 5; 5; 5; 5; 5]; [5; 7; 7; 5; 5; 5; 5; 5]; [5; 5; 5; 5; 5; 5; 5; 7]]%Z =
-  Some [80; 1; 1; 5; 7; 32; 0; 96; 1]%Z.
+  tight_subrect (mkTP 1 false false 0 0 0 1 false false) 8 4 [[5; 5; 7; 5; 5; 5; 5; 5]; [5; 5; 5; 5; 5; 5; 5; 5]; [5; 7; 7; 5; 5; 5; 5; 5]; [5; 5; 5; 5; 5; 5; 5; 7]]%Z =
+  Some (TPayload [80; 1; 1; 5; 7; 32; 0; 96; 1]%Z).
 Proof. vm_compute. reflexivity. Qed.
+
+(* Tight with LastRect: whatever the solid-area search (CheckSolidTile, FindBestSolidArea,
+   ExtendSolidArea) finds on the server framebuffer, the pieces it emits - flushed upper parts, top
+   strip, left / right / bottom recursion, solid rectangle - partition the requested rectangle *)
+Theorem C01_tight_split_cover : forall sfb fuel x y w h ps, 1 <= w -> 1 <= h ->
+  tight_split fuel sfb x y w h = Some ps -> part_abs x y w h (geoms ps).
+Proof. exact tight_split_cover. Qed.
+
+Example C01_tight_split_nonvacuous :
+  exists ps, tight_split 5 (mk_grid 80 64 7%Z) 0 0 80 64 = Some ps /\ length ps = 1.
+Proof. eexists. split; [vm_compute; reflexivity|reflexivity]. Qed.
 
 (* ---- splitting: CoRRE tiles, Zlib / Ultra strips ---- *)
 Theorem C01_split_cover_tiles : forall w h tw th, 0 < tw -> 0 < th -> partitions w h (tiles w h tw th).
@@ -182,6 +224,26 @@ Theorem C01_send_rect : forall W H scr p x y w h rects,
   Forall (fun r => x <= w_x r /\ y <= w_y r) rects /\
   partitions w h (rel_geoms x y rects).
 Proof. exact send_rect_ok. Qed.
+
+(* ---- a whole connection: parameter changes (SetEncodings / SetPixelFormat) and updates in any
+   order, Zlib / ZRLE / Ultra payloads through compressors whose state persists for the connection
+   (paired oracle states); only hypothesis on the external code: the round trip ---- *)
+Theorem C01_session : forall (cstate dstate : Type)
+  (compress : cstate -> list Z -> list Z * cstate) (decompress : dstate -> list Z -> option (list Z * dstate))
+  (sync : cstate -> dstate -> Prop),
+  (forall cs ds data, sync cs ds ->
+     exists ds', decompress ds (fst (compress cs data)) = Some (data, ds') /\ sync (snd (compress cs data)) ds') ->
+  forall steps p cs ds wire,
+  session_ok p steps -> sync3 cstate dstate sync cs ds ->
+  run_session cstate compress p cs steps = Ok wire ->
+  exists grids, client_session dstate decompress p ds steps wire = Some grids /\ session_pixels steps wire grids.
+Proof. exact session_roundtrip. Qed.
+
+Example C01_session_nonvacuous :
+  exists wire, run_session unit (fun cs pl => (pl, cs)) (mkParams 6 1 1 48 48 0 false) (tt, tt, tt)
+    [Update 0 0 3 2 [[1; 2; 2]; [1; 2; 3]]%Z; SetParams (mkParams 5 1 1 48 48 0 false); Update 1 0 2 2 [[1; 2; 2]; [1; 2; 3]]%Z] = Ok wire
+    /\ length wire = 2.
+Proof. eexists. split; [vm_compute; reflexivity|reflexivity]. Qed.
 
 Example C01_send_rect_nonvacuous :
   exists rects, send_rect (mkParams 5 1 1 48 48 0 false) 1 0 2 2 [[1; 2; 2]; [1; 2; 3]]%Z = Ok rects /\ length rects = 1.
